@@ -686,8 +686,16 @@ func (in *Interp) callSSA(caller *frame, callpos token.Pos, fn *ssa.Function, ar
 	if fn.TypeParams().Len() > 0 && len(fn.TypeArgs()) == 0 {
 		unsupported("uninstantiated generic function %s", fn)
 	}
-	if caller != nil && in.depth(caller) > maxDepth {
-		panic(abortPath{abortBudget, "call depth exceeded in " + fn.String()})
+	if caller != nil {
+		d := in.depth(caller)
+		if in.path != nil && in.path.recursionLimit > 0 && d > in.path.recursionLimit {
+			// the harness declared a bound on the nesting the code under test can
+			// legitimately reach: beyond it the real program overflows its stack
+			panic(fatalError{fmt.Sprintf("stack overflow: more than %d nested calls in %s", in.path.recursionLimit, fn.String())})
+		}
+		if d > maxDepth {
+			panic(abortPath{abortBudget, "call depth exceeded in " + fn.String()})
+		}
 	}
 	fr.env = make(map[ssa.Value]value)
 	fr.block = fn.Blocks[0]
